@@ -24,6 +24,16 @@ type c10Fmt struct {
 	Suffix string
 	Sep    string
 	Rec    map[byte]string // A B good, C cast failure, D multiple xpath matches, E javascript throws
+	// Syms overrides the record alphabet "ABCDE"; a symbol may also be a NON-target unit (its solo run
+	// delivers nothing), which must leave the results of the target records around it unchanged
+	Syms string
+}
+
+func (f c10Fmt) syms() string {
+	if f.Syms != "" {
+		return f.Syms
+	}
+	return "ABCDE"
 }
 
 func c10Formats() []c10Fmt {
@@ -32,10 +42,12 @@ func c10Formats() []c10Fmt {
 	}
 	jsThrow := `{"custom_func":{"name":"javascript","args":[{"const":"if (v=='boom') { throw 'bad ' + v } v + '!'"},{"const":"v"},{"xpath":"J"}]}}`
 	ctxSelf := `{"custom_func":{"name":"javascript_with_context","args":[{"const":"var n = JSON.parse(_node); Object.keys(n).sort().join('+')"}]}}`
+	// a script that looks for names it was not given (evaluated after "j": arguments of a call that threw must be gone)
+	jsProbe := `{"custom_func":{"name":"javascript","args":[{"const":"typeof v + '/' + typeof _node"}]}}`
 	return []c10Fmt{
 		{Name: "xml", Schema: `{` + h("xml") + `,"transform_declarations":{"FINAL_OUTPUT":{"xpath":"/r/o","object":{
   "anc":{"xpath":"..","object":{"cur":{"xpath":"o/N"},"cnt":{"custom_func":{"name":"concat","args":[{"xpath":"o/@id"},{"const":"/"},{"xpath":"o/J"}]}}}},
-  "id":{"xpath":"@id"},"n":{"xpath":"N","type":"int"},"m":{"xpath":"M"},"j":` + jsThrow + `,"keys":` + ctxSelf + `,
+  "id":{"xpath":"@id"},"n":{"xpath":"N","type":"int"},"m":{"xpath":"M"},"j":` + jsThrow + `,"zp":` + jsProbe + `,"keys":` + ctxSelf + `,
   "items":{"array":[{"xpath":"I","custom_func":{"name":"javascript_with_context","args":[{"const":"JSON.parse(_node)"}]}}]},
   "first":{"xpath":"I[1]","template":"T"},"cp":{"custom_func":{"name":"copy"}},"firstcp":{"xpath":"I[1]","custom_func":{"name":"copy"}}}},
   "T":{"custom_func":{"name":"upper","args":[{"xpath":"."}]}}}}`,
@@ -47,7 +59,7 @@ func c10Formats() []c10Fmt {
 				'E': `<o id="5"><I>f</I><N>5</N><J>boom</J></o>`}},
 		{Name: "json", Schema: `{` + h("json") + `,"transform_declarations":{"FINAL_OUTPUT":{"xpath":"/*","object":{
   "anc":{"xpath":"..","object":{"cur":{"xpath":"*/N"},"cnt":{"custom_func":{"name":"concat","args":[{"xpath":"*/id"},{"const":"/"},{"xpath":"*/J"}]}}}},
-  "id":{"xpath":"id"},"n":{"xpath":"N","type":"int"},"m":{"xpath":"M/*"},"j":` + jsThrow + `,"keys":` + ctxSelf + `,
+  "id":{"xpath":"id"},"n":{"xpath":"N","type":"int"},"m":{"xpath":"M/*"},"j":` + jsThrow + `,"zp":` + jsProbe + `,"keys":` + ctxSelf + `,
   "items":{"array":[{"xpath":"I/*","custom_func":{"name":"javascript_with_context","args":[{"const":"JSON.parse(_node)"}]}}]},
   "first":{"xpath":"I/*[1]","template":"T"},"cp":{"custom_func":{"name":"copy"}},"firstcp":{"xpath":"I/*[1]","custom_func":{"name":"copy"}}}},
   "T":{"custom_func":{"name":"upper","args":[{"xpath":"."}]}}}}`,
@@ -58,24 +70,24 @@ func c10Formats() []c10Fmt {
 				'D': `{"id":4,"I":["e"],"N":4,"M":[1,2],"J":"x"}`,
 				'E': `{"id":5,"I":["f"],"N":5,"J":"boom"}`}},
 		{Name: "csv", Schema: `{` + h("csv") + `,"file_declaration":{"delimiter":",","data_row_index":1,"columns":[{"name":"id"},{"name":"N"},{"name":"J"},{"name":"M"}]},
- "transform_declarations":{"FINAL_OUTPUT":{"object":{"id":{"xpath":"id"},"n":{"xpath":"N","type":"int"},"m":{"xpath":"*[.='dup']"},"j":` + jsThrow + `,"keys":` + ctxSelf + `,"cp":{"custom_func":{"name":"copy"}},"t":{"xpath":"id","template":"T"}}},
+ "transform_declarations":{"FINAL_OUTPUT":{"object":{"id":{"xpath":"id"},"n":{"xpath":"N","type":"int"},"m":{"xpath":"*[.='dup']"},"j":` + jsThrow + `,"zp":` + jsProbe + `,"keys":` + ctxSelf + `,"cp":{"custom_func":{"name":"copy"}},"t":{"xpath":"id","template":"T"}}},
  "T":{"custom_func":{"name":"upper","args":[{"xpath":"."}]}}}}`,
 			Rec: map[byte]string{'A': "a1,1,x,-\n", 'B': "\"b,2\",22,y,dup\n", 'C': "c3,zz,x,-\n", 'D': "d4,4,dup,dup\n", 'E': "e5,5,boom,-\n"}},
 		{Name: "csv2", Schema: `{` + h("csv2") + `,"file_declaration":{"delimiter":",","records":[{"name":"H","header":"^H","is_target":true,"columns":[{"name":"id","index":2},{"name":"N","index":3},{"name":"J","index":4}],
    "child_records":[{"name":"D","header":"^D","columns":[{"name":"v","index":2}]},{"name":"M","header":"^M","columns":[{"name":"w","index":2}]}]}]},
  "transform_declarations":{"FINAL_OUTPUT":{"object":{"anc":{"xpath":"..","object":{"cur":{"xpath":"H/N"},"cnt":{"custom_func":{"name":"concat","args":[{"xpath":"H/id"},{"const":"/"},{"xpath":"H/J"}]}}}},
-  "id":{"xpath":"id"},"n":{"xpath":"N","type":"int"},"m":{"xpath":"M/w"},"j":` + jsThrow + `,"keys":` + ctxSelf + `,
+  "id":{"xpath":"id"},"n":{"xpath":"N","type":"int"},"m":{"xpath":"M/w"},"j":` + jsThrow + `,"zp":` + jsProbe + `,"keys":` + ctxSelf + `,
   "items":{"array":[{"xpath":"D","custom_func":{"name":"javascript_with_context","args":[{"const":"JSON.parse(_node).v"}]}}]},"cp":{"custom_func":{"name":"copy"}},"first":{"xpath":"D[1]/v","template":"T"}}},
  "T":{"custom_func":{"name":"upper","args":[{"xpath":"."}]}}}}`,
 			Rec: map[byte]string{'A': "H,a1,1,x\nD,a\nD,b\n", 'B': "H,b2,22,y\nD,c\nM,m\n", 'C': "H,c3,zz,x\nD,d\n", 'D': "H,d4,4,x\nD,e\nM,1\nM,2\n", 'E': "H,e5,5,boom\nD,f\n"}},
 		{Name: "fixed-length", Schema: `{` + h("fixed-length") + `,"file_declaration":{"envelopes":[{"by_rows":2,"columns":[{"name":"id","start_pos":2,"length":2,"line_pattern":"^1"},{"name":"N","start_pos":4,"length":2,"line_pattern":"^1"},{"name":"J","start_pos":2,"length":4,"line_pattern":"^2"},{"name":"M","start_pos":6,"length":3,"line_pattern":"^2"}]}]},
- "transform_declarations":{"FINAL_OUTPUT":{"object":{"id":{"xpath":"id"},"n":{"xpath":"N","type":"int"},"m":{"xpath":"*[starts-with(.,'dup')]"},"j":` + jsThrow + `,"keys":` + ctxSelf + `,"cp":{"custom_func":{"name":"copy"}},"t":{"xpath":"id","template":"T"}}},
+ "transform_declarations":{"FINAL_OUTPUT":{"object":{"id":{"xpath":"id"},"n":{"xpath":"N","type":"int"},"m":{"xpath":"*[starts-with(.,'dup')]"},"j":` + jsThrow + `,"zp":` + jsProbe + `,"keys":` + ctxSelf + `,"cp":{"custom_func":{"name":"copy"}},"t":{"xpath":"id","template":"T"}}},
  "T":{"custom_func":{"name":"upper","args":[{"xpath":"."}]}}}}`,
 			Rec: map[byte]string{'A': "1a1 1\n2x   -\n", 'B': "1b222\n2y   dup\n", 'C': "1c3zz\n2x   -\n", 'D': "1d4 4\n2dup dup\n", 'E': "1e5 5\n2boom-\n"}},
 		{Name: "fixedlength2", Schema: `{` + h("fixedlength2") + `,"file_declaration":{"envelopes":[{"name":"H","header":"^H","is_target":true,"columns":[{"name":"id","start_pos":2,"length":2},{"name":"N","start_pos":4,"length":2},{"name":"J","start_pos":6,"length":4}],
    "child_envelopes":[{"name":"D","header":"^D","columns":[{"name":"v","start_pos":2,"length":1}]},{"name":"M","header":"^M","columns":[{"name":"w","start_pos":2,"length":1}]}]}]},
  "transform_declarations":{"FINAL_OUTPUT":{"object":{"anc":{"xpath":"..","object":{"cur":{"xpath":"H/N"},"cnt":{"custom_func":{"name":"concat","args":[{"xpath":"H/id"},{"const":"/"},{"xpath":"H/J"}]}}}},
-  "id":{"xpath":"id"},"n":{"xpath":"N","type":"int"},"m":{"xpath":"M/w"},"j":` + jsThrow + `,"keys":` + ctxSelf + `,
+  "id":{"xpath":"id"},"n":{"xpath":"N","type":"int"},"m":{"xpath":"M/w"},"j":` + jsThrow + `,"zp":` + jsProbe + `,"keys":` + ctxSelf + `,
   "items":{"array":[{"xpath":"D","custom_func":{"name":"javascript_with_context","args":[{"const":"JSON.parse(_node).v"}]}}]},"cp":{"custom_func":{"name":"copy"}},"first":{"xpath":"D[1]/v","template":"T"}}},
  "T":{"custom_func":{"name":"upper","args":[{"xpath":"."}]}}}}`,
 			Rec: map[byte]string{'A': "Ha1 1x\nDa\nDb\n", 'B': "Hb222y\nDc\nMm\n", 'C': "Hc3zzx\nDd\n", 'D': "Hd4 4x\nDe\nM1\nM2\n", 'E': "He5 5boom\nDf\n"}},
@@ -83,10 +95,21 @@ func c10Formats() []c10Fmt {
    {"name":"grp","type":"segment_group","is_target":true,"min":0,"max":-1,"child_segments":[{"name":"H","elements":[{"name":"id","index":1},{"name":"N","index":2},{"name":"J","index":3}]},
      {"name":"D","min":0,"max":-1,"elements":[{"name":"v","index":1}]},{"name":"M","min":0,"max":-1,"elements":[{"name":"w","index":1}]}]}]},{"name":"IEA"}]},
  "transform_declarations":{"FINAL_OUTPUT":{"object":{"anc":{"xpath":"..","object":{"cur":{"xpath":"grp/H/N"},"cnt":{"custom_func":{"name":"concat","args":[{"xpath":"grp/H/id"},{"const":"/"},{"xpath":"grp/H/J"}]}}}},
-  "id":{"xpath":"H/id"},"n":{"xpath":"H/N","type":"int"},"m":{"xpath":"M/w"},"j":{"xpath":"H","template":"JS"},"keys":` + ctxSelf + `,
+  "id":{"xpath":"H/id"},"n":{"xpath":"H/N","type":"int"},"m":{"xpath":"M/w"},"j":{"xpath":"H","template":"JS"},"zp":` + jsProbe + `,"keys":` + ctxSelf + `,
   "items":{"array":[{"xpath":"D","custom_func":{"name":"javascript_with_context","args":[{"const":"JSON.parse(_node).v"}]}}]},"cp":{"custom_func":{"name":"copy"}},"first":{"xpath":"D[1]/v","template":"T"}}},
  "JS":` + jsThrow + `,"T":{"custom_func":{"name":"upper","args":[{"xpath":"."}]}}}}`,
 			Prefix: "ISA~", Suffix: "IEA~", Rec: map[byte]string{'A': "H*a1*1*x~D*a~D*b~", 'B': "H*b2*22*y~D*c~M*m~", 'C': "H*c3*zz*x~D*d~", 'D': "H*d4*4*x~D*e~M*1~M*2~", 'E': "H*e5*5*boom~D*f~"}},
+		// target records among siblings that have the same local name under another namespace prefix, or
+		// another name altogether: those (N, M) are not records and must not become ones next to a record
+		{Name: "xml-ns", Schema: `{` + h("xml") + `,"transform_declarations":{"FINAL_OUTPUT":{"xpath":"/r/v1:o","object":{"id":{"xpath":"@id"},"n":{"xpath":"v1:N","type":"int"},"x":{"xpath":"v2:N"}}}}}`,
+			Prefix: `<r xmlns:v1="u1" xmlns:v2="u2">`, Suffix: "</r>", Syms: "ABCNMR", Rec: map[byte]string{
+				// R binds the records' namespace URI to another prefix somewhere inside itself
+				'R': `<v1:o id="4"><v1:N>4</v1:N><z:e xmlns:z="u1">r</z:e></v1:o>`,
+				'A': `<v1:o id="1"><v1:N>1</v1:N><v2:N>x</v2:N></v1:o>`,
+				'B': `<v1:o id="2"><v1:N>22</v1:N></v1:o>`,
+				'C': `<v1:o id="3"><v1:N>zz</v1:N></v1:o>`,
+				'N': `<v2:o id="8"><v1:N>8</v1:N></v2:o>`,
+				'M': `<o id="9"><v1:N>9</v1:N></o>`}},
 	}
 }
 
@@ -121,6 +144,7 @@ func c10Input(f c10Fmt, seq string) string {
 }
 
 func c10Run(f c10Fmt, seq string) ([]string, string) {
+	resetProcessState() // every run starts from the initial process-wide state (pools, caches): runs must not see each other
 	schema, err, _ := hx.NewSchema("s", f.Schema)
 	if err != nil {
 		return nil, "schema rejected: " + err.Error()
@@ -136,7 +160,22 @@ func c10Run(f c10Fmt, seq string) ([]string, string) {
 	return out, ""
 }
 
+const c10NoResult = "<no result: not a target record>"
+
+// c10Check classifies: a disagreement of the xml-ns format that disappears when the prefix-rebinding
+// record R is taken out of the sequence is the known namespace-table finding (signature of its own).
 func c10Check(cs c10Case, solo map[byte]string) (sig, detail string) {
+	sig, detail = c10Check1(cs, solo)
+	if sig != "" && !strings.HasPrefix(sig, "harness:") && cs.Fmt == "xml-ns" && strings.Contains(cs.Seq, "R") {
+		without := c10Case{Fmt: cs.Fmt, Seq: strings.ReplaceAll(cs.Seq, "R", "")}
+		if s2, _ := c10Check1(without, solo); s2 == "" {
+			return "xml:namespace-prefix-rebound-inside-an-earlier-record", detail
+		}
+	}
+	return sig, detail
+}
+
+func c10Check1(cs c10Case, solo map[byte]string) (sig, detail string) {
 	var f *c10Fmt
 	for _, x := range c10Formats() {
 		if x.Name == cs.Fmt {
@@ -151,26 +190,37 @@ func c10Check(cs c10Case, solo map[byte]string) (sig, detail string) {
 		solo = map[byte]string{}
 		for sym := range f.Rec {
 			o, e := c10Run(*f, string(sym))
-			if e != "" || len(o) != 2 || o[1] != "eof" {
+			if e != "" || len(o) < 1 || len(o) > 2 || o[len(o)-1] != "eof" {
 				return "harness:solo-run", fmt.Sprintf("%s record %c: %v %s", f.Name, sym, o, e)
 			}
-			solo[sym] = o[0]
+			if len(o) == 2 {
+				solo[sym] = o[0]
+			} else {
+				solo[sym] = c10NoResult // a non-target unit
+			}
 		}
 	}
 	out, e := c10Run(*f, cs.Seq)
 	if e != "" {
 		return "panic-or-setup:" + f.Name, e
 	}
-	if len(out) != len(cs.Seq)+1 || out[len(out)-1] != "eof" {
+	// positions of the sequence that are records (non-target units deliver nothing)
+	var recPos []int
+	for i := 0; i < len(cs.Seq); i++ {
+		if solo[cs.Seq[i]] != c10NoResult {
+			recPos = append(recPos, i)
+		}
+	}
+	if len(out) != len(recPos)+1 || out[len(out)-1] != "eof" {
 		return "result-count:" + f.Name, fmt.Sprintf("%s sequence %s: %d results %v", f.Name, cs.Seq, len(out), out)
 	}
-	for i := 0; i < len(cs.Seq); i++ {
-		if out[i] != solo[cs.Seq[i]] {
+	for k, i := range recPos {
+		if out[k] != solo[cs.Seq[i]] {
 			kind := "record-depends-on-neighbours"
-			if strings.HasPrefix(solo[cs.Seq[i]], "fail") != strings.HasPrefix(out[i], "fail") {
+			if strings.HasPrefix(solo[cs.Seq[i]], "fail") != strings.HasPrefix(out[k], "fail") {
 				kind = "failure-not-confined-to-its-record"
 			}
-			return kind + ":" + f.Name, fmt.Sprintf("%s sequence %s position %d (record %c):\n-- in the sequence: %s\n-- alone:           %s\n-- whole transcript: %v", f.Name, cs.Seq, i, cs.Seq[i], out[i], solo[cs.Seq[i]], out)
+			return kind + ":" + f.Name, fmt.Sprintf("%s sequence %s position %d (record %c):\n-- in the sequence: %s\n-- alone:           %s\n-- whole transcript: %v", f.Name, cs.Seq, i, cs.Seq[i], out[k], solo[cs.Seq[i]], out)
 		}
 	}
 	return "", ""
@@ -345,11 +395,14 @@ func init() {
 				bad := false
 				for sym := range f.Rec {
 					o, e := c10Run(f, string(sym))
-					if e != "" || len(o) != 2 || o[1] != "eof" {
+					switch {
+					case e == "" && len(o) == 2 && o[1] == "eof":
+						solo[sym] = o[0]
+					case e == "" && len(o) == 1 && o[0] == "eof" && f.Syms != "":
+						solo[sym] = c10NoResult
+					default:
 						c.HarnessError(fmt.Sprintf("solo run %s %c: %v %s", f.Name, sym, o, e))
 						bad = true
-					} else {
-						solo[sym] = o[0]
 					}
 				}
 				if bad {
@@ -362,11 +415,11 @@ func init() {
 						nf++
 					}
 				}
-				if nf != 3 {
+				if nf != 3 && f.Syms == "" {
 					c.HarnessError(fmt.Sprintf("%s: expected 3 failing records in the alphabet, got %d: %v", f.Name, nf, solo))
 				}
-				syms := "ABCDE"
-				gen.Sequences(5, maxLen, func(s []int) bool {
+				syms := f.syms()
+				gen.Sequences(len(syms), maxLen, func(s []int) bool {
 					if len(s) < 2 {
 						return true
 					}
